@@ -192,6 +192,7 @@ impl Monitor for C13 {
             "instantiate_without_minter",
             "instantiate_cap_equals_supply",
             "migrations_run",
+            "tokens_with_more_than_ten_holders",
         ]
     }
     fn rule(&self) -> &'static str {
@@ -203,7 +204,13 @@ impl Monitor for C13 {
     fn run_history(&self, h: &mut Hist) {
         let mut c = Cw20::new(&mut h.rng);
         let hostile = h.rng.chance(1, 4);
-        let cfg = gen_init(&mut h.rng, !hostile);
+        let mut cfg = gen_init(&mut h.rng, !hostile);
+        if h.idx % 8 == 7 {
+            // a token with more holders than one listing page (the history migrates later)
+            let n = h.rng.range(11, 45) as usize;
+            add_holders(&mut h.rng, &mut cfg, n);
+            h.out.count("tokens_with_more_than_ten_holders");
+        }
         let r = c.instantiate(&cfg);
         h.note(format!("instantiate {:?} => {}", cfg, r.class()));
         h.out.evaluations += 1;
